@@ -469,7 +469,15 @@ def handle : Handler
       let o := parseOpts os
       let kt := kindTag k
       if ts == "PANIC" || rts == "PANIC" || cds == "PANIC" then "VIOL panic"
-      else if !encodable k f then s!"OK b=enc.{kt}.unrepresentable"
+      else if !encodable k f then
+        -- outside the round-trip domain (invalid UTF-8 in a string, NullValue ≠ 0): the renderer and the reader's
+        -- normalisation are still checked against the real text
+        match encode ops o k f, parseTree ts with
+        | .ok mj, some ij =>
+          if parseHex txt != some (renderSorted mj) then s!"DIFF render model-text={toHex (renderSorted mj)}"
+          else if showJ ij != showJ (sanitize mj) then s!"DIFF sanitize model={showJ (sanitize mj)}"
+          else s!"OK b=enc.{kt}.unrepresentable"
+        | _, _ => s!"OK b=enc.{kt}.unrepresentable"
       else
         let model := encode ops o k f
         match model with
@@ -569,7 +577,7 @@ def handle : Handler
           else if tss == "ERR" then "VIOL cannot-encode-stream"
           else
             match (tss.splitOn ";").mapM parseTree with
-            | none => "BAD senc trees"
+            | none => if (tss.splitOn ";").contains "!" then "VIOL stream-encoder-wrote-invalid-json" else "BAD senc trees"
             | some its =>
               -- the property first: decoding the stream the encoder wrote gives the values back, one by one
               let want := fs.map fun f => showField (f.read k)
